@@ -385,4 +385,48 @@ theorem document_end_to_end (w : World) (n : Nat) (hw : w.openOk = true) (hn : w
 example : textCall (fun k => .ok [65 + k]) ⟨true, some 4⟩ {} [.pages [4, 2], .excludeHeaders, .pageRange 2 2]
     = .ok [66, 10, 10, 68] := by decide
 
+/-! ## the same for an extractor family grown from `FromReader(r)` -/
+
+/-- the base record of `FromReader(r)` -/
+abbrev lent : Ext := { hasFile := false, reader := some 0, owns := false, opened := true }
+
+theorem reader_chain_static (w : World) (k : Term) (cs : List BCall) :
+    termStatic w k (chainFrom lent cs) =
+      if badRange cs then .err else termBody w k (chainFrom lent cs).opts := by
+  obtain ⟨_, herr, hfmt, hfile⟩ := chain_cfg cs lent
+  have hf : (chainFrom lent cs).format = .pdf := hfmt
+  have hh : (chainFrom lent cs).hasFile = false := hfile
+  unfold termStatic
+  rw [herr, hf, hh, C10Life.pdf_body w k _ hf]
+  have hc : k.checksErr .pdf = true := by cases k <;> rfl
+  cases hb : badRange cs <;> simp [hc]
+
+/-- **selection_end_to_end_reader**: the selection rule after ANY history on a family grown from
+`FromReader(r)` — the caller's reader is never closed by the family, so every extractor answers
+every terminal operation, any number of times, on exactly the pages of the set its chain denotes;
+a page outside the document is an error. -/
+theorem selection_end_to_end_reader (w : World) (n : Nat) (hn : w.pageCount = some n)
+    (ops : List Op) (i : Nat) (cs : List BCall) (hl : (lineage [[]] ops)[i]? = some cs)
+    (hgood : badRange cs = false) (hne : selOf cs ≠ []) (k : Term) :
+    (InRange (selOf cs) n → (terminal w k (exec w readerBase ops) i).2 = .pages (specPages (selOf cs) n)) ∧
+    (¬ InRange (selOf cs) n → (terminal w k (exec w readerBase ops) i).2 = .err) := by
+  have h := C10Hist.answer_of_lineage_reader w ops i cs hl k
+  have hp : (chainFrom lent cs).opts.pages = selOf cs := by
+    have := (chain_cfg cs lent).1
+    simpa using this
+  rw [h, reader_chain_static w k cs, hgood]
+  simp only [Bool.false_eq_true, if_false]
+  constructor
+  · intro hr
+    have := C10Life.every_terminal_selects w k (chainFrom lent cs).opts n hn (by rw [hp]; exact hne) (by rw [hp]; exact hr)
+    rw [this, hp]
+  · intro hr
+    exact C10Life.every_terminal_out_of_range w k _ n hn (by rw [hp]; exact hne) (by rw [hp]; exact hr)
+
+example : let w : World := ⟨false, some 4⟩
+    let ops := [Op.derive 0 (.pages [3, 1]), .term 1 .text, .term 1 .text, .close 1, .derive 1 (.pageRange 1 2)]
+    (lineage [[]] ops)[2]? = some [.pages [3, 1], .pageRange 1 2] ∧
+    (terminal w .document (exec w readerBase ops) 2).2 = .pages [0, 1, 2] ∧
+    (terminal w .text (exec w readerBase ops) 1).2 = .pages [0, 2] := by decide
+
 end Tabula.C10E2E
